@@ -57,6 +57,7 @@ Section MgrProofs.
 
   Notation mstate := (mstate objs).
   Notation add' := (add data objs build engine gen_mgr).
+  Notation add_blocked' := (add_blocked data objs build engine gen_mgr).
   Notation step' := (step data objs build engine gen_mgr).
   Notation run' := (run data objs build engine gen_mgr).
   Notation get_h' := (get_h objs).
@@ -125,6 +126,22 @@ Section MgrProofs.
   Arguments get_h : simpl never.
   Arguments set_h : simpl never.
   Arguments fmt : simpl never.
+
+  (* add() against a store that refuses writes *)
+  Lemma add_blocked_spec : forall st a dh h md,
+    add_blocked' st a dh h md =
+    match lookup a (ms_sources _ st) with
+    | Some _ => (st, ExistingSource)
+    | None =>
+      if rebuild_needed (dh_version _ dh) (ch_fp _ (get_h' (ms_handlers _ st) h))
+      then (mkM objs (ms_sources _ st) (ms_default _ st) (ms_handlers _ st) (S (ms_builds _ st)), WriteFailed)
+      else add_result st a dh h md
+    end.
+  Proof.
+    intros st a dh h md. unfold add_blocked. rewrite add_spec.
+    destruct (lookup a (ms_sources objs st)); [reflexivity|].
+    unfold add_result. destruct (rebuild_needed _ _); reflexivity.
+  Qed.
 
   (* ---- C17 ---- *)
 
@@ -234,12 +251,21 @@ Section MgrProofs.
     match o with
     | OAdd _ a _ h true =>
       match lookup a (ms_sources _ st) with None => Some (a, h) | Some _ => ms_default _ st end
+    | OAddBlocked _ a dh h true =>
+      match lookup a (ms_sources _ st) with
+      | None => if rebuild_needed (dh_version _ dh) (ch_fp _ (get_h' (ms_handlers _ st) h))
+                then ms_default _ st else Some (a, h)
+      | Some _ => ms_default _ st
+      end
     | _ => ms_default _ st
     end.
   Proof.
-    intros st [a dh h md|a|a|]; unfold step; try reflexivity.
+    intros st [a dh h md|a dh h md|a|a|]; unfold step; try reflexivity.
     - rewrite add_spec. unfold add_result.
       destruct (lookup a (ms_sources objs st)); cbn [fst ms_default]; destruct md; reflexivity.
+    - rewrite add_blocked_spec. unfold add_result.
+      destruct (lookup a (ms_sources objs st)); cbn [fst ms_default]; [destruct md; reflexivity|].
+      destruct (rebuild_needed _ _); cbn [fst ms_default]; destruct md; reflexivity.
     - unfold remove. destruct (lookup a (ms_sources objs st)); reflexivity.
   Qed.
 
@@ -297,9 +323,16 @@ Section MgrProofs.
 
   Lemma step_inv : forall st o, Inv st -> Inv (fst (step' st o)).
   Proof.
-    intros st [a dh h md|a|a|] [N F]; unfold step; try (split; assumption).
+    intros st [a dh h md|a dh h md|a|a|] [N F]; unfold step; try (split; assumption).
     - rewrite add_spec. unfold add_result.
       destruct (lookup a (ms_sources objs st)) eqn:L; cbn [fst]; [split; assumption|].
+      split; cbn [ms_sources].
+      + rewrite map_app. cbn [map fst]. apply NoDup_app_snoc; [exact N|].
+        intros I. apply lookup_in in I. contradiction.
+      + intros b s0 I. apply in_app_or in I as [I|[I|[]]]; [eauto|]. inversion I; reflexivity.
+    - rewrite add_blocked_spec. unfold add_result.
+      destruct (lookup a (ms_sources objs st)) eqn:L; cbn [fst]; [split; assumption|].
+      destruct (rebuild_needed _ _); cbn [fst]; [split; assumption|].
       split; cbn [ms_sources].
       + rewrite map_app. cbn [map fst]. apply NoDup_app_snoc; [exact N|].
         intros I. apply lookup_in in I. contradiction.
@@ -329,5 +362,41 @@ Section MgrProofs.
   Proof.
     intros st a dh h md L E. apply rebuild_iff_p; [exact L|].
     right. rewrite E. discriminate.
+  Qed.
+  (* a refused write fails the whole call: no source, no default, no handler changed - only the builder ran;
+     and the retried call does exactly what the first one would have done on a writable store *)
+  Theorem blocked_add_fails_whole_p : forall st a dh h md,
+    snd (add_blocked' st a dh h md) = WriteFailed ->
+    let st' := fst (add_blocked' st a dh h md) in
+    ms_sources _ st' = ms_sources _ st /\ ms_default _ st' = ms_default _ st /\
+    ms_handlers _ st' = ms_handlers _ st /\ ms_builds _ st' = S (ms_builds _ st) /\
+    snd (add' st a dh h md) = Added true.
+  Proof.
+    intros st a dh h md. rewrite add_blocked_spec, add_spec.
+    destruct (lookup a (ms_sources objs st)); cbn [snd]; [discriminate|].
+    unfold add_result. destruct (rebuild_needed _ _); cbn [fst snd]; [|discriminate].
+    intros _. repeat split; reflexivity.
+  Qed.
+
+  Theorem retry_after_blocked_add_p : forall st a dh h md,
+    snd (add_blocked' st a dh h md) = WriteFailed ->
+    let st1 := fst (add_blocked' st a dh h md) in
+    snd (add' st1 a dh h md) = Added true /\
+    ms_sources _ (fst (add' st1 a dh h md)) = ms_sources _ (fst (add' st a dh h md)) /\
+    ms_default _ (fst (add' st1 a dh h md)) = ms_default _ (fst (add' st a dh h md)) /\
+    ms_handlers _ (fst (add' st1 a dh h md)) = ms_handlers _ (fst (add' st a dh h md)).
+  Proof.
+    intros st a dh h md. rewrite add_blocked_spec.
+    destruct (lookup a (ms_sources objs st)) eqn:L; cbn [snd]; [discriminate|].
+    destruct (rebuild_needed _ _) eqn:R; cbn [fst snd]; [|unfold add_result; rewrite R; discriminate].
+    intros _. rewrite !add_spec. cbn [ms_sources]. rewrite L. unfold add_result. cbn [ms_handlers ms_sources ms_default ms_builds].
+    rewrite R. cbn [fst snd]. repeat split; reflexivity.
+  Qed.
+
+  (* a store that refuses writes matters only when add() has to write *)
+  Theorem blocked_add_without_rebuild_p : forall st a dh h md,
+    snd (add_blocked' st a dh h md) <> WriteFailed -> add_blocked' st a dh h md = add' st a dh h md.
+  Proof.
+    intros st a dh h md. unfold add_blocked. destruct (add' st a dh h md) as [st' [[|]| | |]]; cbn [snd]; congruence.
   Qed.
 End MgrProofs.
